@@ -145,7 +145,19 @@ fn on_step(rec: &StepRec, t: &mut Tally) {
 }
 
 pub fn judge(_part: &str, case: &Case, tally: &mut Tally) -> Verdict {
-    spec_judge(case, &SpecOpts { own: Class::Cursor, scrollback: false }, tally, &mut on_step)
+    let v = spec_judge(case, &SpecOpts { own: Class::Cursor, scrollback: false }, tally, &mut on_step);
+    if v != Verdict::Pass {
+        return v;
+    }
+    // "none of these commands changes ... " anything but the cursor: hidden modes too
+    if case.nums.first() == Some(&1) {
+        use RefFn::*;
+        let pure = |f: &RefFn| matches!(f, Bs | Cr | Ht | Lf | Nel | Ri | Cuu(_) | Cud(_) | Cuf(_) | Cub(_) | Cnl(_) | Cpl(_) | Cha(_) | Cup(..) | Vpa(_) | Vpr(_) | Cht(_) | Cbt(_));
+        if let Some(v) = crate::spec::mode_frame_check(case, &pure, tally) {
+            return v;
+        }
+    }
+    Verdict::Pass
 }
 
 pub fn gen_random(src: &mut Src, _i: usize) -> Case {
@@ -188,7 +200,7 @@ pub fn run(env: &Env) -> PropRun {
                 let margins = b.margins[d[0]];
                 let origin = d[1] == 1;
                 let s = setup(b.cols, b.rows, margins, origin, d[2], d[3]);
-                return Some(Case::new(b.cols, b.rows, None).feed(s).feed(b.cmds[d[4]].clone()));
+                return Some(Case::new(b.cols, b.rows, None).feed(s).feed(b.cmds[d[4]].clone()).with_nums(vec![(i % 3 == 0) as usize]));
             }
             i -= b.total;
         }
@@ -205,6 +217,29 @@ pub fn run(env: &Env) -> PropRun {
         &make,
         &j,
     ));
+    if env.tier == crate::engine::Tier::Thorough {
+        // all ordered pairs of a reduced command set on 3x3 (every margin pair, origin mode, start cell)
+        let cols = 3usize;
+        let rows = 3usize;
+        let margins = margin_options(rows);
+        let mut cmds: Vec<String> = vec![];
+        for (f, edge) in [('A', rows), ('B', rows), ('C', cols), ('D', cols), ('E', rows), ('F', rows), ('e', rows), ('a', cols), ('G', cols), ('d', rows), ('I', 1), ('Z', 1)] {
+            for p in ["".to_string(), "2".to_string(), edge.to_string(), "65535".to_string()] {
+                cmds.push(format!("\x1b[{}{}", p, f));
+            }
+        }
+        for s in ["\x08", "\r", "\t", "\n", "\x1bD", "\x1bE", "\x1bM", "\x1b[?6h", "\x1b[?6l", "\x1b[H", "\x1b[2;2H", "\x1b[3;3H", "\x1b[65535;65535H", "\x1b[2;3r", "\x1b[r", "\x1b7", "\x1b8", "x"] {
+            cmds.push(s.to_string());
+        }
+        let dims = [margins.len(), 2, rows, cols + 1, cmds.len(), cmds.len()];
+        let ptotal = product(&dims);
+        let pmake = |i: usize| -> Option<Case> {
+            let d = radix(i, &dims)?;
+            let s = setup(cols, rows, margins[d[0]], d[1] == 1, d[2], d[3]);
+            Some(Case::new(cols, rows, None).feed(s).feed(cmds[d[4]].clone()).feed(cmds[d[5]].clone()))
+        };
+        parts.push(run_part(env, "enum-pairs-3x3", ptotal, true, "3x3: every margin pair x origin on/off x every start cell incl. wrap-pending x all ordered pairs of 66 commands (12 parameterised moves x {omitted,2,edge,65535}, C0/ESC moves, ?6h/l, CUP forms, DECSTBM, DECSC/DECRC, a print)", &pmake, &j));
+    }
     let n = env.tier.scale(60_000, 40);
     parts.push(random_part(env, "random-histories", n, &gen_random, &j));
     PropRun {
